@@ -49,15 +49,17 @@ def explain(meta, model_out):
         if set(g['ctx']) & LOSSY_CTX:
             ids.add('flex-grid-fragmentation-loses-content')
             lost_words |= ws
-        elif 'columns' in g['ctx'] and 'column-span' in meta.get('features', ()) and i in bad and not duplicated:
-            ids.add('column-span-loses-following-content')
-            lost_words |= ws
-        elif duplicated and i in bad and 'float' in g['ctx']:
-            ids.add('float-fragment-duplicated')
         elif i in bad and {'footnote', 'columns'} <= set(g['ctx']):
             ids.add('footnote-in-columns-lost-or-duplicated')
         elif duplicated and i in bad and {'columns', 'table'} <= set(g['ctx']):
             ids.add('table-in-columns-duplicates-rows')
+        elif i in bad and 'table' in g['ctx'] and g['kind'] == 'flow' and restarts(g['words'], proj):
+            # exactly: the first k words of one cell (once or several times), then the whole cell from its beginning
+            ids.add('table-cell-restarts-after-empty-fragment')
+        elif (duplicated and i in bad and {'float', 'columns'} <= set(g['ctx'])
+              and any(proj == g['words'][k:] + g['words'] for k in range(1, len(g['words'])))):
+            # exactly: the end of a float inside a multi-column container (its continuation), then the whole float
+            ids.add('float-in-columns-fragment-duplicated')
         elif (g['kind'] == 'oof' and i in bad and proj == g['words'][:len(proj)] and len(proj) < len(g['words'])
               and 'footnote' not in g['ctx']):
             ids.add('out-of-flow-lost-at-document-end')
@@ -71,12 +73,24 @@ def explain(meta, model_out):
         proj = [w for w in flat if w in set(ws)]
         if proj != ws and not ids:
             return None
-        if proj != ws and not ({'flex-grid-fragmentation-loses-content',
-                                'column-span-loses-following-content'} & ids):
+        if proj != ws and 'flex-grid-fragmentation-loses-content' not in ids:
             return None
     if not ids:
         return None
     return sorted(ids)[0]
+
+
+def restarts(words, proj):
+    """`proj` = one or more proper non-empty prefixes of `words`, then `words` itself (words are distinct)."""
+    if not words or not proj or proj[0] != words[0]:
+        return False
+    segments = []
+    for w in proj:
+        if w == words[0]:
+            segments.append([])
+        segments[-1].append(w)
+    return (len(segments) >= 2 and segments[-1] == words
+            and all(seg == words[:len(seg)] and len(seg) < len(words) for seg in segments[:-1]))
 
 
 def conserve_violation(meta, model_out):
@@ -126,10 +140,19 @@ def fit_items(page, decorations=False):
 
     placed = [0]
 
-    def walk(box, state):
+    def walk(box, state, depth=0):
         run_start = None            # items placed on the page before the current run of column boxes
         for child in getattr(box, 'children', []):
             if not isinstance(child, boxes.Box):
+                continue
+            if (child.is_floated() and not isinstance(box, boxes.LineBox) and child.width > 0
+                    and child.margin_height() > 0 and depth != 1):
+                # a float laid out before is content placed on the page: what follows it in this container is not
+                # "the first content of the page" (block.py: page_is_empty_with_no_children counts floats). The
+                # floated children of the root box itself (depth 1) are the continuations of floats broken on the
+                # previous page, which make_page lays out before the flow without giving up the exemption.
+                state['first'] = False
+                placed[0] += 1
                 continue
             if not child.is_in_normal_flow() or isinstance(child, boxes.FootnoteAreaBox):
                 continue
@@ -142,7 +165,7 @@ def fit_items(page, decorations=False):
                 # but only if nothing was placed on the page before that row of columns
                 if run_start is None:
                     run_start = placed[0]
-                walk(child, {'first': run_start == 0})
+                walk(child, {'first': run_start == 0}, depth + 1)
                 continue
             run_start = None
             if isinstance(child, (boxes.TableRowBox, boxes.LineBox)):
@@ -151,8 +174,18 @@ def fit_items(page, decorations=False):
                 state['first'] = False
                 placed[0] += 1
                 continue
+            if (isinstance(child, boxes.BlockBox) and not child.children and not child.is_column
+                    and not isinstance(child, boxes.TableCellBox) and child.style['height'] != 'auto'
+                    and child.style['height'].unit == 'px'
+                    and (child.height or child.padding_top or child.border_top_width)):
+                # an unbreakable block: a childless block of definite height; its content box must fit
+                kinds.append('block')
+                items.append((frac(child.content_box_y()) + frac(child.height), state['first']))
+                state['first'] = False
+                placed[0] += 1
+                continue
             was_first = state['first']
-            walk(child, state)
+            walk(child, state, depth + 1)
             if (decorations and isinstance(child, boxes.BlockBox) and not child.is_column
                     and child.style['height'] == 'auto' and getattr(child.style['max_height'], 'value', None) == float('inf')
                     and not isinstance(child, boxes.TableCellBox) and child.children
@@ -200,6 +233,15 @@ def render_outcome(html, limit_s=20, options=None):
     except Exception as exc:  # noqa: BLE001
         frames = [f for f in traceback.extract_tb(exc.__traceback__) if '/weasyprint/' in f.filename]
         where = f'{frames[-1].filename.split("/")[-1]}:{frames[-1].name}' if frames else 'unknown'
+        if isinstance(exc, Hang) and frames:
+            # the timer fires anywhere inside the loop that does not terminate: name the outermost function of the
+            # innermost file (the function that owns the loop or calls the helpers it spins in), which is stable
+            outer = frames[-1]
+            for frame in reversed(frames):
+                if frame.filename != frames[-1].filename:
+                    break
+                outer = frame
+            where = f'{outer.filename.split("/")[-1]}:{outer.name}'
         return f'err:{type(exc).__name__}@{where}'
     finally:
         signal.setitimer(signal.ITIMER_PROF, 0)
